@@ -305,6 +305,7 @@ def handle (op : String) (args : List String) : Option String :=
       let (ts, len) ← run (do let ts ← list nat; let l ← nat; pure (ts, l)) args
       pure (showNats (Gsl.getWords ts len) ++ " | " ++
         ";".intercalate ((Gsl.tupleCounts ts len).map (fun p => showNats p.1 ++ "=" ++ toString p.2)))
+  | "ss.errors" => pure (joinSp SearchSpace.errorNames)
   | "ss.check" => do
       let (b, p) ← run (do let b ← list (list flt); let p ← list flt; pure (b, p)) args
       match SearchSpace.checkBounds (0.0 : Float) b p with
